@@ -916,6 +916,8 @@ def compile_main(raw_args: Optional[Sequence[str]] = None) -> None:
         ]
     except ValueError as ex:
         print(f"ERROR: {ex}", file=sys.stderr)
+        if delete_wheeldir:
+            shutil.rmtree(wheeldir)
         sys.exit(1)
 
     for req in list(input_reqs):
@@ -977,18 +979,26 @@ def compile_main(raw_args: Optional[Sequence[str]] = None) -> None:
             )
             constraint_reqs.append(extra_constraint)
 
-    repo = build_repo(
-        args.solutions,
-        args.upgrade_packages,
-        args.sources,
-        args.excluded_sources,
-        args.find_links,
-        args.index_urls,
-        wheeldir,
-        extra_index_urls=args.extra_index_urls,
-        no_index=args.no_index,
-        allow_prerelease=args.allow_prerelease,
-    )
+    try:
+        repo = build_repo(
+            args.solutions,
+            args.upgrade_packages,
+            args.sources,
+            args.excluded_sources,
+            args.find_links,
+            args.index_urls,
+            wheeldir,
+            extra_index_urls=args.extra_index_urls,
+            no_index=args.no_index,
+            allow_prerelease=args.allow_prerelease,
+        )
+    except ValueError as ex:
+        # An unusable repository argument (missing --find-links or --source
+        # directory, no repository at all) is a usage error, not a crash.
+        print(f"ERROR: {ex}", file=sys.stderr)
+        if delete_wheeldir:
+            shutil.rmtree(wheeldir)
+        sys.exit(1)
     try:
         results, roots = perform_compile(
             input_reqs,
